@@ -27,6 +27,7 @@ ASSUMPTIONS = [
     "top-level `comment` keys are not generated (the tool's comment field is info.comment)",
     "input metafiles are canonical bencoding (C06 is the property about what is written)",
 ]
+FUZZ_RUNS = 40000   # thorough tier: libFuzzer runs per campaign of the coverage-guided stage (vf/fuzz.py)
 BUDGET = {
     "quick": {"examples": 500, "workers": 8, "time_cap": 70},
     "thorough": {"examples": 20000, "workers": 14, "time_cap": 900},
